@@ -170,6 +170,10 @@ Proof. exact bounded_optimal_small. Qed.
 Print Assumptions C14_bounded_optimal_small.
 
 (* ---- stated, NOT claimed ---- *)
+(* NOTE: as written (no premise on the goal cell) the two statements below are FALSE — a goal outside the
+   grid makes the heuristic reach (h+w)^2 and the kernel Stuck; see the refutations in PropsOptimal.v.
+   With the premise `inside h w g` both ARE proved for all grids there (C14_optimal_equals_bellman_ford,
+   C14_never_stuck), together with C14_optimal (minimum over all routes, any goal). *)
 (* unbounded optimality at the exact instance: the goal value is the minimum over all routes *)
 Definition C14_optimal_full_statement : Prop :=
   forall h w data barriers conn s g, inside h w s ->
